@@ -34,7 +34,7 @@ CHECKS["C01"] = {
             "distinct = distinct delivered symbol sequences of completed runs; states = distinct (handler, device, world, monitor, budget) fingerprints",
     "assumptions": ["NN > 16 is outside the statement: reports there are don't-care",
                     "silence is modelled as a full receive timeout of the current state (or 2 s)"],
-    "runs": [bus("C01", ["--validate-every", 1, "--validate-maxk", 1], ["--validate-every", 6, "--validate-maxk", 2])],
+    "runs": [bus("C01", ["--validate-every", 1, "--validate-maxk", 1], ["--validate-every", 24, "--validate-maxk", 2])],
 }
 
 CHECKS["C02"] = {
@@ -50,7 +50,7 @@ CHECKS["C02"] = {
             "all environment choice sequences with <=k deviations and <=c chunk deviations; plus a sweep of all 256 data values x 3 destination kinds",
     "assumptions": ["a repeated master part is the complete telegram including QQ (as the passive receive side expects)",
                     "after a failed exchange a closing SYN is optional"],
-    "runs": [bus("C02", ["--validate-every", 1, "--validate-maxk", 1], ["--validate-every", 6, "--validate-maxk", 2])],
+    "runs": [bus("C02", ["--validate-every", 1, "--validate-maxk", 1], ["--validate-every", 24, "--validate-maxk", 2])],
 }
 CHECKS["C03"] = {
     "engine": "busmc", "design_ref": "5/C03",
@@ -64,7 +64,7 @@ CHECKS["C03"] = {
             "(requests from start / arriving at any read call, foreign telegrams); all environment choice sequences with <=k deviations, "
             "<=c chunk deviations, <=r request arrivals",
     "assumptions": ["AUTO-SYN interval = 10*masterNumber+51 ms until the own SYN was echoed once, 40 ms afterwards (protocol.h constants)"],
-    "runs": [bus("C03", ["--validate-every", 1, "--validate-maxk", 1], ["--validate-every", 6, "--validate-maxk", 2])],
+    "runs": [bus("C03", ["--validate-every", 1, "--validate-maxk", 1], ["--validate-every", 24, "--validate-maxk", 2])],
 }
 
 CHECKS["C15"] = {
@@ -78,7 +78,7 @@ CHECKS["C15"] = {
     "rule": "scenario = device x answer set (all subsets up to size 2/3 of a 6-answer universe) x telegram (id kept/truncated/extended/mutated, 2 sources) x "
             "asker variant (clean, bad CRC then repeat, bad twice, NAK of response, NAK twice); all environment choice sequences with <=k deviations",
     "assumptions": ["for master destinations id length + registered tail length must equal NN (doc comment of setAnswer)"],
-    "runs": [bus("C15", ["--validate-every", 40, "--validate-maxk", 1], ["--validate-every", 200, "--validate-maxk", 2])],
+    "runs": [bus("C15", ["--validate-every", 40, "--validate-maxk", 1], ["--validate-every", 500, "--validate-maxk", 2])],
 }
 
 C04_FAULT_RUN = bus("C04", ["--validate-every", 0], ["--validate-every", 0], variant="san")
